@@ -25,7 +25,7 @@ var bigSizes = []int{79999, 80000, 80001, 87999, 88000, 88001, 96001, 160001}
 var versionPatterns = [][]string{
 	{"5"}, {"0"}, {"1", "2", "3"}, {"5", "3"}, {"3", "5"}, {"0", "1"}, {"1", "0"}, {"now"}, {"now", "now"}, {"7", "now"},
 	{"255", "256"}, {"256", "255"}, {"65535", "65536", "4294967296"}, {"4294967296", "1"}, {"2", "2"}, {"0", "0"}, {"9", "4", "6"},
-	{"18446744073709551615", "1"},
+	{"18446744073709551615", "1"}, {"2", "9", "5"}, {"7", "3", "5", "1"}, {"300", "2", "70000"}, {"6", "1", "now"}, {"4", "8", "0", "2"},
 }
 
 func genSplit(r *common.Rand, g *common.Gen, size int) string {
@@ -186,6 +186,9 @@ func gen(g *common.Gen) {
 		}
 		for _, nm := range names {
 			pat := common.Pick(r, versionPatterns)
+			if len(pat) >= 3 {
+				g.Stat("object-with-3plus-versions")
+			}
 			for _, v := range pat {
 				size := common.Pick(r, boundarySizes)
 				if r.Chance(1, 12) {
@@ -382,4 +385,9 @@ func genFill(r *common.Rand, g *common.Gen) {
 	g.Op("remove name=/8:66 pfx=1")
 	g.Op("get name=/8:66 pfx=1")
 	g.Op("get name=/8:66/8:%s pfx=0", common.Hex([]byte{0, byte(r.Intn(200))}))
+	// >= 1000 segments of an older version sort before the newer version's keys
+	g.Op("sfill pfx=/8:67/54:01 n=%d ver=1 asc=2", common.Pick(r, []int{997, 1000, 1003}))
+	g.Op("sput name=/8:67/54:02/8:0000 ver=2 c=aa")
+	g.Op("get name=/8:67 pfx=1")
+	g.Op("get name=/8:67/54:02 pfx=1")
 }
